@@ -287,7 +287,14 @@ def bridge_cases(rng, thorough):
                 rec = {"tunnel": hexs(tid), "mapping": hexs("pmap_%d" % rng.randrange(1000)), "secret": hexs(rand_str(rng)), "node": "",
                        "src": rng.choice([10000001, 2 ** 53 + 1, 2 ** 62]), "dst": rng.choice([10000002, 2 ** 53 + 3, 77]),
                        "host": hexs(rng.choice(["127.0.0.1", "例え.jp", ""])), "port": rng.choice([0, 22, 8080, 65535])}
-                out.append({"backend": b, "stream": "bridge", "way": w, "rec": rec, "ttl_ms": 120007 if w == "timeout" else 0, "nodes": 2})
+                out.append({"backend": b, "stream": "bridge", "way": w, "rec": rec, "ttl_ms": 120007 if w == "timeout" else 0, "nodes": 2,
+                            # where the target client's CONTROL connection lives must not matter: its tunnel connection may arrive anywhere
+                            "local_target": (w != "timeout" and (rep == 0 or rng.random() < 0.5))})
+                if rep == 0 and w in ("abort", "complete"):
+                    out.append({"backend": b, "stream": "bridge", "way": w, "rec": rec, "ttl_ms": 0, "nodes": 2, "local_target": False})
+    # the target connection is on the source node before the bridge is indexed (handleLocalBridgeWait back-off): the bridge appears 1.6 s later
+    out.append({"backend": "memory", "stream": "bridge", "way": "localwait", "ttl_ms": 0, "nodes": 2, "fill": 1600,
+                "rec": {"tunnel": hexs("tun-localwait"), "mapping": hexs("pmap_7"), "secret": hexs("k"), "node": "", "src": 11, "dst": 12, "host": hexs("h"), "port": 1}})
     return out
 
 
@@ -339,6 +346,12 @@ def poll_cases(rng, n):
                {"op": "look", "n": 0, "tid": t},
                {"op": "poll", "n": 0, "tid": hexs("never-%d" % i), "d": 400}]
         out.append({"backend": b, "ttl_ms": 30007, "nodes": 2, "ops": ops, "stream": "valid", "poll": True})
+    # the target arrives first and the source publishes after several misses (1.6 s): the next poll must come within the interval cap
+    for b in ("redis", "memory"):
+        t = hexs("poll-late-%s" % b)
+        out.append({"backend": b, "ttl_ms": 30007, "nodes": 2, "stream": "valid", "poll": True,
+                    "ops": [{"op": "poll", "n": 1, "tid": t, "d": 5000, "delay": 1600, "rec": rand_rec(rng, t, "node-0", False)},
+                            {"op": "look", "n": 0, "tid": t}]})
     return out
 
 
